@@ -500,8 +500,10 @@ class RefModel:
         if form == "box":
             for e, lb, ub in zip(c["lhs"], c["lb"], c["ub"]):
                 v, l, u = E.ev(e, env), E.ev(lb, env), E.ev(ub, env)
-                out.append(("ge", (v - l) / sc))
-                out.append(("ge", (u - v) / sc))
+                if np.isfinite(l):
+                    out.append(("ge", (v - l) / sc))
+                if np.isfinite(u):
+                    out.append(("ge", (u - v) / sc))
             return out
         for a, b in zip(c["lhs"], c["rhs"]):
             va, vb = E.ev(a, env), E.ev(b, env)
